@@ -198,6 +198,30 @@ def run(tier, seed, replay=None):
             chk.cov["governs_replays"] = ngov
             chk.cov["traces_validated_against_impl"] += ngov
             chk.cov["evaluations"] += ngov
+    # ---- "govern the run", moduli and tensions: the bulk modulus, the per-face-type tensions, the area-elasticity modulus and the
+    # per-face-type bending moduli enter the run through the internal forces, which must be the gradients of the energies built from
+    # exactly these values (generic cells with different values per face type; the oracle of C02: spec/Geom/ForceTrace)
+    if not replay:
+        import c02
+        fcases = [c for c in c02.cases(tier, seed) if c["kind"] == "generic"][: 8 if tier == "quick" else 60]
+        for i, c in enumerate(fcases):
+            c["k"] = i + 1
+        fdir = vlib.build("m1d0", ["force_driver"])
+        cp, op = os.path.join(work, "gov_f_cases.ndjson"), os.path.join(work, "gov_f_obs.ndjson")
+        vlib.write_ndjson(cp, fcases)
+        rc, out = vlib.run([os.path.join(fdir, "force_driver"), cp, op], timeout=1800)
+        frows = vlib.read_ndjson(op) if os.path.exists(op) else []
+        if rc != 0 or len(frows) != len(fcases):
+            chk.violation("crash:governs_forces", "force_driver crashed while evaluating how moduli and tensions enter the forces (status %d)" % rc)
+        else:
+            nf_, fbad = vlib.tlc_validate_records(os.path.join(vlib.ROOT, "spec", "Geom"), "ForceTrace", "ForceTrace.cfg", frows, chunk=60, par=2, workers=2)
+            chk.cov["states"] += nf_
+            chk.cov["transitions"] += nf_
+            chk.cov["traces_validated_against_impl"] += nf_
+            chk.cov["evaluations"] += nf_
+            for i in fbad.get("P_EnergyGradients", []):
+                chk.violation("impl:governs_forces:%s" % json.dumps(fcases[i]["params"]), "bulk modulus / tensions / bending moduli do not govern the internal forces as gradients of the energies built from them, on %s: %s %s" % (
+                    json.dumps(fcases[i]), frows[i].get("fd_rel"), frows[i].get("fd_bending")), {"governs_force_case": fcases[i]})
     chk.assumptions += ["sign rules are the reader's own diagnostics (doc/parameter_file_doc.md states none): > 0 for duration, time step, sampling period (and >= time step), "
                         "minimum edge length, both cut-offs, isoperimetric ratio; >= 0 for damping, face ids, tensions, strengths, bending modulus; zero damping and INF in "
                         "undocumented places are 'either'", "empty / non-numeric elements belong to C17"]
